@@ -193,6 +193,39 @@ def rule_c(ctx):
         cond = [(c, inf) for (c, inf, b) in facts if truth(inf) is True and c in rv]
         same = {c for c, _ in cond} == set(rv) and bool(rv)
         if not same and rv:
+            # identity form: one bool local decides the publish and is the answer (`let changed = modify(..); if changed { store } changed`)
+            chain = set(); frontier = [(0, (rets[0], len(m.stmts(rets[0]))))] if rets else []
+            for rb in rets:
+                at = (rb, len(m.stmts(rb)))
+                cur = 0
+                for _ in range(6):
+                    chain.add(cur)
+                    ds = [d for d in fl.reaching(cur, at) if d[0] != "entry"]
+                    if len(ds) != 1:
+                        break
+                    sb_, si_ = ds[0]
+                    if si_ >= len(m.blocks[sb_]["s"]):
+                        break
+                    st_ = m.blocks[sb_]["s"][si_]
+                    if st_["k"] == "assign" and st_["r"]["k"] == "use" and st_["r"]["o"]["k"] in ("copy", "move") and not st_["r"]["o"]["p"]["p"]:
+                        cur = st_["r"]["o"]["p"]["l"]; at = (sb_, si_)
+                    else:
+                        break
+            ident = False
+            for b_ in range(m.nblocks()):
+                t_ = m.term(b_)
+                if t_["k"] != "switch" or t_["d"].get("k") not in ("copy", "move") or t_["d"]["p"]["p"] or t_["d"]["p"]["l"] not in chain:
+                    continue
+                X = t_["d"]["p"]["l"]
+                true_t = [tg for tg, lab in m.succ_labeled(b_) if (lab.startswith("sw:") and lab != "sw:0") or (lab == "else" and [v for v, _ in t_["vals"]] == [0])]
+                false_t = [tg for tg, lab in m.succ_labeled(b_) if lab == "sw:0" or (lab == "else" and [v for v, _ in t_["vals"]] != [0])]
+                only_true = sbb not in cfg.reachable_without_edges(m, 0, {(b_, tg) for tg in true_t})
+                not_false = all(sbb != tg and sbb not in cfg.reachable(m, tg, unwind=False) for tg in false_t)
+                same_val = all(fl.reaching(X, (rb, len(m.stmts(rb)))) == fl.reaching(X, (b_, len(m.stmts(b_)))) for rb in rets) if X != 0 else True
+                if true_t and only_true and not_false and same_val:
+                    ident = True
+            same = ident
+        if not same and rv:
             # path form: the answer is assembled from literals — `.. None => return false, .. store(pruned); true`. Then every `true` is assigned
             # only where the publish has already happened, every `false` only where it cannot have happened, and a computed answer is the
             # very condition the publish hangs on.
@@ -223,9 +256,13 @@ def rule_c(ctx):
                 if sb is None:
                     okp = False
                 elif v[0] == "const" and v[1] == 1:
-                    okp = okp and (sb not in before_store or sb == sbb)          # true only once the publish is behind us
+                    # a `true` is produced either after the publish, or on a path that cannot reach the return without publishing
+                    behind = sb not in before_store or sb == sbb
+                    ahead = not (cfg.reachable(m, sb, avoid={sbb}, unwind=False) & set(rets))
+                    okp = okp and (behind or ahead)
                 elif v[0] == "const" and v[1] == 0:
-                    okp = okp and sb not in after_store                          # false only where no publish happened
+                    # a `false` is produced where no publish happened and none can follow
+                    okp = okp and sb not in after_store and sbb not in cfg.reachable(m, sb, unwind=False)
                 else:
                     ex_ = v[1] if isinstance(v[1], list) else []
                     okp = okp and bool(ex_) and all(any(c == e and truth(inf) is True for (c, inf, b) in facts) for e in ex_)
